@@ -22,32 +22,40 @@ class FunctionReport:
         self.wall = 0.0
 
 
+def explore_path(uni, contract, prefix, rep=None):
+    """One symbolic path of the real body (decision prefix given).  Returns
+    (obligations, new prefixes to explore, report of this path)."""
+    rep = rep or FunctionReport(contract)
+    fn, info = uni.repo.function(contract.func)
+    key = contract.func.split(":")[1]
+    dec = Decider()
+    dec.start_path(prefix)
+    dec.todo = []
+    it = Interp(uni, dec)
+    it.bounded = False
+    try:
+        run_path(uni, it, contract, fn, info, key, rep)
+    except PathEnd:
+        pass
+    except Unsupported as err:
+        rep.unsupported = str(err)
+    rep.bounded = rep.bounded or it.bounded
+    rep.paths += 1
+    return it.obls, dec.todo, rep
+
+
 def verify_function(uni, contract, max_paths=4000):
     """Symbolically execute the real body of contract.func on every path."""
     t0 = time.time()
     rep = FunctionReport(contract)
-    fn, info = uni.repo.function(contract.func)
-    key = contract.func.split(":")[1]
-    dec = Decider()
     todo = [[]]
     while todo:
         prefix = todo.pop()
-        dec.start_path(prefix)
-        dec.todo = []
-        it = Interp(uni, dec)
-        it.bounded = False
-        try:
-            run_path(uni, it, contract, fn, info, key, rep)
-        except PathEnd:
-            pass
-        except Unsupported as err:
-            rep.unsupported = str(err)
-            rep.obligations.extend(it.obls)
+        obls, more, _ = explore_path(uni, contract, prefix, rep)
+        rep.obligations.extend(obls)
+        if rep.unsupported:
             break
-        rep.obligations.extend(it.obls)
-        rep.bounded = rep.bounded or it.bounded
-        todo.extend(dec.todo)
-        rep.paths += 1
+        todo.extend(more)
         if rep.paths > max_paths:
             rep.unsupported = f"more than {max_paths} paths"
             break
